@@ -161,6 +161,52 @@ func runC13(c *core.Ctx) {
 			}
 		}
 	}
+	// independence under growth: separate allocations (also zero-capacity
+	// ones, which own no storage yet) must stay separate objects: growing or
+	// writing one must not change another, nor a later allocation
+	for g := 0; g < c.Pick(200, 4000); g++ {
+		t := dyn.Types[r.Intn(len(dyn.Types))]
+		ch := r.Range(1, 4)
+		k := r.Pick(0, 0, 1, 2, r.Range(3, 9))
+		l := r.Range(0, k)
+		caseID := fmt.Sprintf("growth/%s/%d/C%d/L%d/K%d", t.Name, g, ch, l, k)
+		if !c.Want(caseID) {
+			continue
+		}
+		inst := "Alloc[" + t.Name + "]"
+		al := signal.Allocator{Channels: ch, Length: l, Capacity: k}
+		d := map[string]any{"type": t.Name, "allocator": []int{ch, l, k}, "scenario": "a := Alloc; b := Alloc; a.Append(non-empty source beyond a's capacity); inspect b and a fresh Alloc"}
+		a, b := t.Alloc(al), t.Alloc(al)
+		c.Eval(1)
+		c.Distinct(core.NewHash().Str("growth").Str(t.Name).Int(ch).Int(l).Int(k).Sum())
+		if a.Same(b) || a.HeaderAddr() == b.HeaderAddr() {
+			c.Violate(inst+"|same-object", caseID, "two Alloc calls returned the same buffer object", d)
+			continue
+		}
+		src := t.Alloc(signal.Allocator{Channels: ch, Length: k + 2, Capacity: k + 2})
+		for i := 0; i < src.Len(); i++ {
+			src.SetSample(i, mon.Canary(t.TypeInfo, i, g))
+		}
+		if p, msg := core.Guard(func() { a.Append(src) }); p {
+			c.Violate(inst+"|panic", caseID, "Append onto a fresh allocation panicked: "+msg, d)
+			continue
+		}
+		fresh := t.Alloc(al)
+		for name, x := range map[string]dyn.Buf{"the other allocation": b, "a later allocation": fresh} {
+			bad := x.Len() != ch*l || x.Cap() != ch*k || x.RawLen() != ch*l || x.RawCap() != ch*k
+			for i := 0; !bad && i < x.RawCap(); i++ {
+				bad = !x.RawAt(i).IsZero()
+			}
+			if bad {
+				c.Violate(inst+"|shared-object", caseID, fmt.Sprintf("after growing one allocation by Append, %s reads %v (allocator {C=%d L=%d K=%d})", name, mon.ShapeOf(x), ch, l, k), d)
+			}
+		}
+		if k == 0 {
+			c.Obs("zero_capacity_pairs_checked_under_growth", 1)
+		}
+		c.Obs("pairs_checked_under_growth", 1)
+	}
+	c.Floor("zero_capacity_pairs_checked_under_growth", 20)
 	c.Floor("named_type_allocs", 13)
 	c.Floor("interval_pairs_checked", 100)
 }
